@@ -131,6 +131,7 @@ func (x *exec) term(v *Val) string {
 	if v.L != nil {
 		// address of a non-heap location used as a value: give it an opaque non-nil ref
 		v.T = x.c.FreshConst("addr", "Int")
+		x.c.Axiom([]string{v.T}, Not(Eq(v.T, "0"))) // the address of a variable, field or element is never nil
 		return v.T
 	}
 	if v.Typ != nil {
@@ -677,8 +678,11 @@ func (x *exec) decodedUseObligs(fn *ssa.Function) {
 	for _, b := range fn.Blocks {
 		for _, in := range b.Instrs {
 			a, ok := in.(*ssa.Alloc)
-			if !ok || a.Comment == "" || a.Referrers() == nil {
-				continue
+			if !ok || a.Comment == "" || a.Comment == "varargs" || a.Referrers() == nil {
+				continue // (varargs: the compiler's argument array of a variadic call)
+			}
+			if x.con != nil && x.con.Claims["decoded-ok:"+a.Comment] {
+				continue // declared redundant on the wire in the contract file
 			}
 			passed, used := false, false
 			var visit func(v ssa.Value, depth int)
